@@ -126,6 +126,22 @@ def reduced_tree(tree, drop=None, flatten=False):
     return tree_from_columns(h, leaf_paths(tree))
 
 
+def shuffle_tree(rng, tree):
+    """the same taxonomy with the node dicts and the child lists in another
+    order (a taxonomy is a set of nodes with a parent relation; no order of
+    siblings belongs to it)"""
+    out = {'hierarchy': list(tree['hierarchy'])}
+    for l in tree['hierarchy']:
+        keys = list(tree[l].keys())
+        rng.shuffle(keys)
+        out[l] = {}
+        for k in keys:
+            kids = list(tree[l][k])
+            rng.shuffle(kids)
+            out[l][k] = kids
+    return out
+
+
 def all_parent_keys(tree):
     out = [None]
     h = tree['hierarchy']
@@ -1012,7 +1028,7 @@ def indep_chunks(n, n_proc, chunk_size):
     return cs, out
 
 
-def model_pipeline(ctx, problem, cfg, results, kappa_of=None):
+def model_pipeline(ctx, problem, cfg, results, kappa_of=None, borders=None):
     """feed the oracle read off the real output to the model's mapPipeline
     and compare every bookkeeping field.  Returns None if equal, else a dict
     describing the first difference."""
@@ -1030,7 +1046,14 @@ def model_pipeline(ctx, problem, cfg, results, kappa_of=None):
         return {'field': 'oracle', 'why': str(e)}
     canon = Canon(tree, extra_levels=[cfg['drop_level']]
                   if cfg['drop_level'] is not None else [])
-    cs, chunks = indep_chunks(n, cfg['n_processors'], cfg['chunk_size'])
+    # how the rows are cut into chunks is not the properties' business: the
+    # model takes the borders the workers were really handed (hook trace) as
+    # a parameter; without a trace any tiling will do (theorem
+    # C01.order_ids_any_chunks), we use the clamp of the present code
+    if borders is not None:
+        chunks = [tuple(b) for b in borders]
+    else:
+        _, chunks = indep_chunks(n, cfg['n_processors'], cfg['chunk_size'])
     # cell ids -> order preserving ints
     ids_sorted = sorted(problem['cell_ids'])
     cid = {c: i for i, c in enumerate(ids_sorted)}
@@ -1044,9 +1067,11 @@ def model_pipeline(ctx, problem, cfg, results, kappa_of=None):
         'oracle': canon.oracle_json(script),
         'ids': [cid[c] for c in problem['cell_ids']],
         'cells': list(kappa_of),
+        'borders': [list(c) for c in chunks],
         'order': chunk_order(chunks)})
-    if out['effChunk'] != cs or [tuple(c) for c in out['chunks']] != chunks:
-        return {'field': 'chunks', 'model': out['chunks'], 'indep': chunks}
+    if not out['tiles']:
+        return {'field': 'tiles', 'why': 'the chunk borders do not tile the '
+                'rows (hypothesis tilesB of the theorems)', 'borders': chunks}
     if 'err' in out['result']:
         return {'field': 'result', 'model': out['result']}
     if not out['runTreeWf']:
